@@ -60,6 +60,44 @@ class ComputeGraph:
                 if idx.op == "Const" and isinstance(idx.attr, str):
                     self.meta.setdefault(idx.attr, []).append((e.data["value"], e))
 
+    @staticmethod
+    def in_decorators(fi):
+        return fi is not None and fi.module.name.endswith(".utils.decorators")
+
+    def writer_functions(self):
+        """functions that perform the mutations of a table below compute() (the staged writer's methods)"""
+        if not hasattr(self, "_writer_fns"):
+            fns = set()
+            for e in self.column_effects + [e for lst in self.meta.values() for _v, e in lst]:
+                if e.chain and e.chain[-1][1] is not None:
+                    fns.add(e.chain[-1][1])
+            self._writer_fns = fns
+        return self._writer_fns
+
+    def store_wrappers(self):
+        """Invocations of the result-storing decorator's wrapper, found by what they do: the outermost function of
+        utils/decorators.py on a call chain under which columns are added to a table.  Each entry: the wrapper's
+        function / call site / chain / returned value / path condition, the stage call(s) made directly from it
+        (one per alternative of a mode-dispatched stage) and the column effects below it."""
+        if hasattr(self, "_wrappers"):
+            return self._wrappers
+        recs = self.I.call_records
+        wf = self.writer_functions()
+        out = []
+        for k, rec in enumerate(recs):
+            fi, chain, _n0, _n1, val, pc = rec
+            if not self.in_decorators(fi) or any(self.in_decorators(f) for _s, f in chain[:-1]):
+                continue
+            cols = [e for e in self.column_effects if e.chain[:len(chain)] == chain]
+            if not cols:
+                continue
+            stages = [(r[0], r[4]) for r in recs[:k] if len(r[1]) == len(chain) + 1 and r[1][:len(chain)] == chain and
+                      not self.in_decorators(r[0]) and r[0] not in wf]
+            out.append({"fi": fi, "site": chain[-1][0], "chain": chain, "value": val, "pc": pc, "stages": stages,
+                        "cols": cols})
+        self._wrappers = out
+        return out
+
     def column(self, name):
         c = self.columns.get(name)
         if not c:
